@@ -221,6 +221,7 @@ type state struct {
 	nec       map[string][]*Sym
 	nextID    int
 	escaped   map[int]bool
+	dirty     map[int]bool // escaped allocations that lived through a havoc: unmaterialised cells are unknown, not zero
 	panicking *Sym
 	steps     int
 	gen       int
@@ -284,6 +285,10 @@ func (st *state) clone() *state {
 	n.escaped = make(map[int]bool, len(st.escaped))
 	for k, v := range st.escaped {
 		n.escaped[k] = v
+	}
+	n.dirty = make(map[int]bool, len(st.dirty))
+	for k, v := range st.dirty {
+		n.dirty[k] = v
 	}
 	return n
 }
@@ -353,7 +358,7 @@ func (c *Ctx) Trace(fn *ssa.Function, cfg TraceConfig) ([]*Trace, bool) {
 }
 
 func (tr *Tracer) runFrom(fn *ssa.Function) {
-	st := &state{store: map[string]*cell{}, facts: map[string]bool{}, eqc: map[string]*Sym{}, nec: map[string][]*Sym{}, escaped: map[int]bool{}}
+	st := &state{store: map[string]*cell{}, facts: map[string]bool{}, eqc: map[string]*Sym{}, nec: map[string][]*Sym{}, escaped: map[int]bool{}, dirty: map[int]bool{}}
 	fr := &frame{fn: fn, block: fn.Blocks[0], regs: map[ssa.Value]*Sym{}, loopGen: map[*ssa.BasicBlock]int{}}
 	for _, p := range fn.Params {
 		s := &Sym{Kind: KParam, Ref: p, Typ: p.Type()}
